@@ -276,3 +276,44 @@ def affected_walk_stops(ctx, rule):
     rule.check(len(stops) >= 3, ctx.construct(f, extra='stop conditions'),
                'expected the three stop conditions of the walk',
                ctx.loc(f))
+
+
+def routing_recorded_before_pause(ctx, rule):
+    """Task.complete stores its routing decisions (next_tasks,
+    has_next_tasks, error_handled) before the early return taken when the
+    workflow is PAUSED: resume re-derives the commands but never
+    recomputes these fields."""
+    prog = ctx.prog
+    tc = prog.func('mistral.engine.tasks.Task.complete')
+    cfg = ctx.cfg(tc)
+    rets = [x for x in cfg.nodes if x.kind == 'stmt' and
+            isinstance(x.ast, ast.Return) and
+            U.guarded(cfg, x, 'states.is_paused(self.wf_ex.state)', True)]
+    if not rets:
+        raise AnalysisError('Task.complete: return for a paused workflow '
+                            'lost')
+    for attr in ('next_tasks', 'has_next_tasks', 'error_handled'):
+        sts = [cfg.stmt_node(st) for t, st in U.attr_stores(tc.node)
+               if norm(t) == 'self.task_ex.' + attr]
+        sts = [s for s in sts if s is not None]
+        ok = bool(sts) and all(any(cfg.paths_between(s, r) for s in sts)
+                               for r in rets)
+        if ok and attr != 'error_handled':
+            # unconditional: on every path from the CAS to the return
+            cas = [n for n, c in U.calls_in(cfg, 'set_state')]
+            ok = bool(cas) and all(cfg.must_pass(cas[0], sts, exits=[r])
+                                   for r in rets)
+        rule.check(ok, ctx.construct(tc, extra='store %s before pause test'
+                                     % attr),
+                   '%s is not recorded before the paused-workflow return '
+                   '(resume never recomputes it)' % attr, ctx.loc(tc))
+    eh = [st for t, st in U.attr_stores(tc.node)
+          if norm(t) == 'self.task_ex.error_handled']
+    rule.check(bool(eh) and all(
+        U.guarded(cfg, cfg.stmt_node(st), 'self.task_ex.state == '
+                  'states.ERROR', True) and
+        U.phas(st.value, 'any(___)') and 'handles_error' in norm(st.value)
+        for st in eh),
+        ctx.construct(tc, extra='error_handled = some command handles it'),
+        'error_handled is not "some next command handles the error" for '
+        'ERROR tasks', ctx.loc(tc))
